@@ -33,10 +33,13 @@ func init() {
 	})
 }
 
-// The last three are deep schemes (coordinates beyond 2^31, bin numbers
-// beyond 2^31); record and query widths are capped there (gen.SpanCap)
-// because enumerating the bins under a wide interval is linear in its width.
-var csiGeoms = [][2]int{{14, 5}, {14, 6}, {12, 4}, {10, 3}, {6, 2}, {4, 2}, {14, 7}, {14, 10}, {1, 10}}
+// (14,7), (14,10), (1,10) are deep schemes (coordinates beyond 2^31, bin
+// numbers beyond 2^31); record and query widths are capped there
+// (gen.SpanCap) because enumerating the bins under a wide interval is linear
+// in its width. (14,1) and (9,1) are so shallow that every bin of a reference
+// is easily occupied. (17,4) and (11,6) cover 29 bits like the BAI scheme
+// with another depth.
+var csiGeoms = [][2]int{{14, 5}, {14, 6}, {12, 4}, {10, 3}, {6, 2}, {4, 2}, {14, 7}, {14, 10}, {1, 10}, {14, 1}, {9, 1}, {17, 4}, {11, 6}}
 
 func c04Plan(seed int64, tier string) []core.Case {
 	n := 150
@@ -145,13 +148,16 @@ type tbxIdx struct {
 	idx   *tabix.Index
 	names []string
 	last  string // name of the last placed record
+	unpl  int    // unplaced records added so far
 }
 
 func (t *tbxIdx) add(r gen.IRec, c bgzf.Chunk) error {
 	if r.Ref < 0 {
-		// an unplaced record carries an already registered name
-		if t.last == "" {
-			return nil
+		// an unplaced record carries "*" (as an unplaced read of a SAM file
+		// does) or, every other time, the name of the last placed record
+		t.unpl++
+		if t.unpl%2 == 1 || t.last == "" {
+			return t.idx.Add(tbxRec{"*", 0, 1}, c, false, false)
 		}
 		return t.idx.Add(tbxRec{t.last, 0, 1}, c, false, false)
 	}
@@ -563,6 +569,18 @@ func c04Run(c core.Case) *core.Result {
 		ic.checkQueries(r, mx, qs, "merged-"+ms.name)
 		if len(r.Viol) > 0 {
 			return r
+		}
+		// BAI: the strategy applied to the chunks a query returns can be
+		// chosen too (Index.MergeStrategy); no choice may lose coverage
+		if bx, ok := mx.(*baiIdx); ok {
+			qsn := mergeStrats[rng.Intn(len(mergeStrats))]
+			bx.idx.MergeStrategy = qsn.f
+			ic.checkQueries(r, mx, qs, "merged-"+ms.name+"+query-"+qsn.name)
+			bx.idx.MergeStrategy = nil
+			r.Count("bai_query_strategy_variants", 1)
+			if len(r.Viol) > 0 {
+				return r
+			}
 		}
 		if ms.name == "adjacent" || ms.name == "compressor65536" {
 			b, err := mx.write()
